@@ -35,6 +35,12 @@ Theorem C11_resolve_pointwise : forall reg, RegWF reg ->
   (forall h, Forall2 (ROp reg) h (resolve_hugr reg h)).
 Proof. exact resolve_pointwise_thm. Qed.
 
+(* what the monitor computes on the implementation's result is sound for that relation *)
+Theorem C11_monitor_relation_sound : forall reg,
+  (forall t t', rty_b reg t t' = true -> RTy reg t t') /\ (forall a a', rarg_b reg a a' = true -> RArg reg a a') /\
+  (forall o o', rop_b reg o o' = true -> ROp reg o o') /\ (regwf_b reg = true -> RegWF reg).
+Proof. exact monitor_relation_sound. Qed.
+
 (* ---- every depth: in an expression loaded from serial form no resolvable opaque type remains, in
    variants of sums, function types, type arguments, sequence arguments, arguments of opaque types *)
 Theorem C11_resolve_reaches_every_depth : forall reg, RegWF reg ->
@@ -115,6 +121,7 @@ Proof. exact ex_nontrivial. Qed.
 
 Print Assumptions C11_resolve_exactly_when_defined.
 Print Assumptions C11_resolve_pointwise.
+Print Assumptions C11_monitor_relation_sound.
 Print Assumptions C11_resolve_reaches_every_depth.
 Print Assumptions C11_no_resolvable_opaque_remains.
 Print Assumptions C11_clean_reflects_remains.
